@@ -419,6 +419,17 @@ static std::string first_diff_line(const std::string &a, const std::string &b) {
     return "length differs";
 }
 
+// what the reference models know to be stored must still be there after a restart (the models are keyed by entity id)
+static void models_survive(World &w, const Node &doc, const char *what) {
+    std::vector<std::string> ids;
+    collect_all_ids(doc, ids);
+    std::set<std::string> present(ids.begin(), ids.end());
+    for (auto &kv : w.arr) if (!present.count(kv.first)) { w.fail("C01.read-equals-model", std::string("a data array with stored data is gone after ") + what); return; }
+    for (auto &kv : w.prop) if (!present.count(kv.first)) { w.fail("C14.values", std::string("a property with assigned values is gone after ") + what); return; }
+    for (auto &kv : w.frame) if (!present.count(kv.first)) { w.fail("C15.cell", std::string("a data frame with stored rows is gone after ") + what); return; }
+    for (auto &kv : w.dims) if (!kv.second.empty() && !present.count(kv.first)) { w.fail("C13.faithful", std::string("a data array with dimension descriptors is gone after ") + what); return; }
+}
+
 static void clock_jump(World &w, int sel) {
     static const int64_t d[] = {0, 0, 1, 2, 61, 3600, 86400 * 3, 86400 * 400, -1, -3600, -86400 * 30};
     int64_t dj = d[((unsigned) sel) % (sizeof(d) / sizeof(d[0]))];
@@ -486,7 +497,7 @@ static void after_op(World &w, const Op &op, int rc) {
             w.fail("C09.ro-mutator-throws", "mutating call returned normally on a ReadOnly file and the observable state changed at " + where);
         }
         // replace-whole-list setters re-link every member in the order given: relative order of survivors is theirs to choose
-        bool relinks = op.kind == OP_tag_setrefs || op.kind == OP_set_sources || op.kind == OP_group_set;
+        bool relinks = rc == 0 && (op.kind == OP_tag_setrefs || op.kind == OP_set_sources || op.kind == OP_group_set);     // a refused one must leave the order alone
         if (!relinks && !order_preserved(w.last, doc, where)) w.fail("C03.order", where);
         if (!w.del_victim.empty() && (rc == 1 || !w.del_result) && !node_equal(w.last, doc, where)) {
             // a delete that threw or reported "nothing removed" and changed the document all the same stopped half way: the victim is still
@@ -769,12 +780,17 @@ int World::exec_session(const Op &op) {
             evh.str(out);
             if (failed()) return 0;
         }
-        if (!open_file(m, false)) { fail("C02.restart-equal", "reopening the closed file (" + arg_class + ") failed"); return 0; }
+        if (!open_file(m, false)) { fail("C02.restart-equal", "reopening the closed file (" + arg_class + ") failed"); models_survive(*this, Node(), "closing the file: it cannot be reopened"); return 0; }
         Node doc = obs();
         if (failed()) return 0;
         std::string where;
         cnt.inc("restart.checked");
-        if (!node_equal(before, doc, where)) { fail("C02.restart-equal", "tree after reopen (" + arg_class + ") differs from tree before close at " + where); return 0; }
+        if (!node_equal(before, doc, where)) {
+            fail("C02.restart-equal", "tree after reopen (" + arg_class + ") differs from tree before close at " + where);
+            // the round-trip properties have their own say about the same restart (an own violation replaces a foreign one)
+            models_survive(*this, doc, "closing and reopening the file"); if (!failed()) post_models(doc);
+            return 0;
+        }
         post_models(doc);
         last = doc;
         return 0;
@@ -802,12 +818,16 @@ int World::exec_session(const Op &op) {
             disk_remove(cp);
             if (failed()) return 0;
         }
-        if (!open_file(m, false)) { fail("C11.image-complete", "image left by a kill after flush()==true cannot be opened (" + arg_class + ")"); return 0; }
+        if (!open_file(m, false)) { fail("C11.image-complete", "image left by a kill after flush()==true cannot be opened (" + arg_class + ")"); models_survive(*this, Node(), "a kill that followed a successful flush: the file cannot be opened"); return 0; }
         Node doc = obs();
         if (failed()) return 0;
         std::string where;
         cnt.inc("kill.checked");
-        if (!node_equal(flush_doc, doc, where)) { fail("C11.image-complete", "image left by a kill after flush()==true differs from the state at flush at " + where); return 0; }
+        if (!node_equal(flush_doc, doc, where)) {
+            fail("C11.image-complete", "image left by a kill after flush()==true differs from the state at flush at " + where);
+            models_survive(*this, doc, "a kill that followed a successful flush"); if (!failed()) post_models(doc);
+            return 0;
+        }
         post_models(doc);
         last = doc; flush_valid = false;
         return 0;
